@@ -506,7 +506,9 @@ func runC15(c *lib.Ctx) error {
 	if err := os.MkdirAll(scratch, 0o755); err != nil {
 		return err
 	}
-	defer os.RemoveAll(scratch)
+	if os.Getenv("C15_KEEP") == "" {
+		defer os.RemoveAll(scratch)
+	}
 	if c.Replay != "" {
 		return replayC15(c, scratch)
 	}
